@@ -62,9 +62,11 @@ ObsCb(o, ev) ==
       ta == IF drop THEN [t0 EXCEPT !.sp = IF ev.sp < @ THEN ev.sp ELSE @, !.c100 = ev.c100] ELSE t0
       t == IF relin THEN [ta EXCEPT !.s = 0, !.c100line = ev.c100, !.smark = 0, !.sdata = FALSE] ELSE ta
       r == Rank(n)
-      marker == n \in BodyHooks /\ ev.nul
+      \* the end-of-body marker is (NULL, 0); NULL data with a length is a stream gap inside the body and counts as body data
+      mk == ev.nul /\ ev.len = 0
+      marker == n \in BodyHooks /\ mk
       completing == IF sd = "q" THEN t.qcompleting ELSE t.scompleting
-      flush == n \in BodyHooks /\ completing /\ ~ev.nul
+      flush == n \in BodyHooks /\ completing /\ ~mk
       ph == IF sd = "q" THEN t.q ELSE t.s
       sticky == o.call.d \in {"req", "res"} /\ o.lastrc[o.call.d] \in {"STOP", "ERROR"}
       vOrder == IF sd \in {"q", "s"} /\ n \notin {"request_file_data"} /\
@@ -106,10 +108,10 @@ ObsCb(o, ev) ==
                       !.sc = IF n = "response_complete" THEN @ + 1 ELSE @,
                       !.tc = IF n = "transaction_complete" THEN @ + 1 ELSE @,
                       !.rp = IF ev.rp > @ THEN ev.rp ELSE @, !.sp = IF ev.sp > @ THEN ev.sp ELSE @,
-                      !.qmark = IF n = "request_body_data" /\ ev.nul THEN @ + 1 ELSE @,
-                      !.smark = IF n = "response_body_data" /\ ev.nul THEN @ + 1 ELSE @,
-                      !.qdata = @ \/ (n = "request_body_data" /\ ~ev.nul /\ ev.len > 0),
-                      !.sdata = @ \/ (n = "response_body_data" /\ ~ev.nul /\ ev.len > 0),
+                      !.qmark = IF n = "request_body_data" /\ mk THEN @ + 1 ELSE @,
+                      !.smark = IF n = "response_body_data" /\ mk THEN @ + 1 ELSE @,
+                      !.qdata = @ \/ (n = "request_body_data" /\ ~mk /\ ev.len > 0),
+                      !.sdata = @ \/ (n = "response_body_data" /\ ~mk /\ ev.len > 0),
                       !.connect = @ \/ (n = "request_line" /\ ev.mn = M_CONNECT),
                       !.resseen = @ \/ (n = "response_line") \/ ev.sp > LINE,
                       !.destroyed = @ \/ (ev.act = "destroy") \/ (n = "transaction_complete" /\ o.cfg.autod /\ ev.ret = "OK"),
